@@ -160,7 +160,11 @@ fn replace_html_char<'a>(ch: char) -> Cow<'a, str> {
         '&' => Cow::from("&amp;"),
         '\'' => Cow::from("&#39;"),
         '"' => Cow::from("&quot;"),
-        '\0' => Cow::from(""),
+        // a literal carriage return would be normalized to a line feed by xml parsers
+        '\r' => Cow::from("&#13;"),
+        // characters that xml 1.0 can not represent, not even as a character reference
+        '\0'..='\u{8}' | '\u{B}' | '\u{C}' | '\u{E}'..='\u{1F}' | '\u{FFFE}'
+        | '\u{FFFF}' => Cow::from(""),
         _ => Cow::from(ch.to_string()),
     }
 }
